@@ -143,11 +143,11 @@ def _compare(c, case, keys, obs, line_out, info, label):
 def correspondence(ctx):
     warnings.simplefilter("ignore")
     c = Corr()
-    c.rule = ("genuine: every built-in exception class of the interpreter (enumerated from `builtins`) x {12 fixed argument "
+    c.rule = ("genuine: every built-in exception class of the interpreter (enumerated from `builtins`) x {NFIXED fixed argument "
               "tuples, class-aware constructor arguments, seeded tuples incl. non-serializable members, extra instance "
               "attributes} x ALL 32 settings of the five switches through the real dump -> brine -> load, plus an end-to-end "
               "sample over simnet connections (incl. SystemExit/KeyboardInterrupt with the two local-routing switches); custom "
-              "classes (23 variants) x 32 settings with import/constructor canaries; two-hop cases (the object one load returned is raised on and dumped again: every class, random switches at each "
+              "classes (NCUSTOM variants) x 32 settings with import/constructor canaries; two-hop cases (the object one load returned is raised on and dumped again: every class, random switches at each "
               "hop, directly and as a callback's exception relayed through a server method over real threaded connections); "
               "crafted payloads (stop-marker look-alikes, "
               "wrong shapes, near-records over 22 module names x 36 class names x hostile args/attrs/version/traceback "
@@ -155,6 +155,7 @@ def correspondence(ctx):
               "load outcome (class identity via type(e).__mro__[1], args, instance attributes, _remote_tb, error class) and "
               "what the requester's except clause sees. distinct = distinct (mode, class or payload shape, switch "
               "setting, outcome class, argument count); a bare `ValueError()` under default switches is the trivial case.")
+    c.rule = c.rule.replace("NFIXED", str(len(vc.FIXED_ARGS))).replace("NCUSTOM", str(len(vc.CUSTOM)))
     try:
         ve.setup_pool()
     except Exception as ex:  # noqa
@@ -451,16 +452,11 @@ def oracle_exc(spec, s, r, mode="direct", known=()):
         return "no exception surfaced at the requester (%s)" % (o["outcome"][1:],), "C09:nothing-surfaced"
     seen = o["outcome"][1]
     if kind == "error":
-        needs = False
-        target = t if is_builtin else o["real_after"]
-        if isinstance(target, type):
-            try:
-                target.__new__(target)
-            except TypeError:
-                needs = True
-            except Exception:  # noqa
-                pass
-        if needs and type(seen) is TypeError:
+        # the known finding, exactly: the class the receiver is ALLOWED to instantiate (a built-in one, or a custom one under
+        # instantiate_custom_exceptions that its module really holds) has a __new__ that needs arguments, and the error is
+        # the TypeError of that very `cls.__new__(cls)` call; anything else (e.g. a gate bypass reaching NeedsNew) is not it
+        target = t if is_builtin else (o["real_after"] if rf[1] else None)
+        if is_new_needs_args_failure(target, seen):
             sig = KNOWN_SIG
         else:
             if not is_builtin and not (clean_name(m) and clean_name(c)):
@@ -595,9 +591,8 @@ def oracle_exc2(spec, s1, r1, s2, r2, mode="direct", known=(), foreign=False):
     if final is None:
         return "no exception surfaced at the final requester", "C09:nothing-surfaced"
     if is_builtin:
-        needs = ve.kind_of(t) == "a"
         if not vinegar_made(final):
-            sig = KNOWN_SIG if (needs and type(final) is TypeError) else "C09:two-hops-load-raises-" + type(final).__name__
+            sig = KNOWN_SIG if is_new_needs_args_failure(t, final) else "C09:two-hops-load-raises-" + type(final).__name__
             if sig in known:
                 return None
             return "after two hops %s.%s did not surface: %s: %s" % (m, c, type(final).__name__, str(final)[:100]), sig
@@ -620,6 +615,20 @@ def oracle_exc2(spec, s1, r1, s2, r2, mode="direct", known=(), foreign=False):
                     "(inside the version warning it appended to the traceback text it passes on)"
                     % rpyc.version.version_string), "C09:relay-discloses-version"
     return None
+
+
+def is_new_needs_args_failure(cls, err):
+    """err is the TypeError `cls.__new__(cls)` raises because cls's __new__ needs arguments"""
+    if not (isinstance(cls, type) and issubclass(cls, BaseException) and type(err) is TypeError):
+        return False
+    try:
+        cls.__new__(cls)
+    except TypeError as own:
+        msg, want = str(err), str(own)
+        return "__new__" in msg and (msg == want or msg.split("(")[0] == want.split("(")[0])
+    except Exception:  # noqa
+        return False
+    return False
 
 
 def vinegar_made(ex):
